@@ -105,7 +105,7 @@ func init() {
 	}
 	anchorFiles["C16"] = []string{"s2/edge_crossings.go", "r3/precisevector.go", "s2/point.go"}
 	Properties["C17"] = PropertySpec{
-		Rules: []string{"R-ERRMODEL", "R-CONST", "R-UNITS", "R-SELFCMP"},
+		Rules: []string{"R-ERRMODEL", "R-CONST", "R-UNITS", "R-SELFCMP", "R-TWIN", "R-UPDATER"},
 		Explanation: "Narrow claim. Of the distance primitives only the documented error model is decided: the error allowances of the interior-distance test and of the error functions are not " +
 			"weakened, the error of UpdateMinDistance is the larger of the interior-case and the point-distance error, and chord angles are not combined with built-in arithmetic.",
 		NotCovered: "that the computed distances, projections and interpolations meet those bounds; the interior/vertex case decision; max distance through the antipode; polyline walks.",
@@ -123,7 +123,7 @@ func init() {
 
 func init() {
 	Properties["C12"] = PropertySpec{
-		Rules: []string{"R-CONST", "R-LAZY", "R-MIRROR", "R-TWIN", "R-SELFCMP", "R-UNITS"},
+		Rules: []string{"R-CONST", "R-LAZY", "R-MIRROR", "R-TWIN", "R-SELFCMP", "R-UNITS", "R-FACEBOUNDS"},
 		Explanation: "Narrow claim. Of the cell geometry only what is visible in code shape is decided: none of the documented error allowances in cell.go, paddedcell.go, stuv.go and the " +
 			"interior-distance test of edge_distances.go is smaller than its derived value; the lazily computed middle of a padded cell is read only through its accessor; the point-to-cell " +
 			"conversion and Cell.ContainsPoint share one projection kernel; Cell.latitude/longitude and the CellID begin/end functions are mirror images.",
@@ -135,7 +135,7 @@ func init() {
 
 func init() {
 	Properties["C11"] = PropertySpec{
-		Rules: []string{"R-RANGE", "R-TWIN", "R-SELFCMP", "R-NAMEPAIR", "R-NORMUSE"},
+		Rules: []string{"R-RANGE", "R-TWIN", "R-SELFCMP", "R-NAMEPAIR", "R-NORMUSE", "R-RESETEQ"},
 		Explanation: "Narrow claim. Of the cell-union algebra only the comparison discipline is decided: every comparison of a cell's inclusive leaf range (RangeMin/RangeMax) with another id in " +
 			"cellunion.go, cellid.go, cell_index.go and s2intersect is inclusive on the right side; the first/last, begin/end and next/previous functions of CellID are mirror images; no test is duplicated " +
 			"and no value is compared with itself in these files.",
@@ -242,12 +242,12 @@ func init() {
 	addRules("C03", "R-VERTEXSYM", "R-CONSTREL", "R-SOS", "R-SOSDERIVE")
 	addRules("C04", "R-RESET", "R-FLAGS", "R-PARTITION", "R-ALLLOOPS", "R-LOCK", "R-SYNCED")
 	addRules("C05", "R-PADDING", "R-PARITY", "R-FRESHRET")
-	addRules("C06", "R-CLIPENDS", "R-RESET", "R-ALLLOOPS")
+	addRules("C06", "R-CLIPENDS", "R-RESET", "R-ALLLOOPS", "R-CONSTREL")
 	addRules("C07", "R-ROLES", "R-PARITY", "R-PARTITION")
-	addRules("C08", "R-CONSTREL", "R-UNITS")
-	addRules("C15", "R-DERIVED")
-	addRules("C09", "R-RAWFLOAT", "R-GLOBAL", "R-DERIVED", "R-ALLLOOPS", "R-FLAGS", "R-INITORDER", "R-PAIR", "R-WIRECOUNT", "R-FIELDPAIR")
-	addRules("C10", "R-PADDING", "R-CONSTREL", "R-ALLLOOPS", "R-ACCUM")
+	addRules("C08", "R-CONSTREL", "R-UNITS", "R-UPDATER")
+	addRules("C15", "R-DERIVED", "R-ALLLOOPS", "R-REINIT")
+	addRules("C09", "R-REINIT", "R-RAWFLOAT", "R-GLOBAL", "R-DERIVED", "R-ALLLOOPS", "R-FLAGS", "R-INITORDER", "R-PAIR", "R-WIRECOUNT", "R-FIELDPAIR")
+	addRules("C10", "R-PADDING", "R-CONSTREL", "R-ALLLOOPS", "R-ACCUM", "R-FACEBOUNDS", "R-INITORDER")
 	addRules("C13", "R-NOALIAS", "R-REINIT")
 	addRules("C14", "R-IDLE", "R-NOALIAS")
 	addRules("C18", "R-ROLES", "R-PARTITION", "R-ALLLOOPS", "R-STAGES")
@@ -265,14 +265,31 @@ func init() {
 		}
 		Properties[prop] = p
 	}
-	for prop, keys := range map[string][]string{
-		"C01": {"twin:s2.CellID."}, "C03": {"twin:s2.EdgeCrosser."}, "C05": {"ContainsCell", "IntersectsCell", "boundaryApproxIntersects", "RegionCoverer"}, "C07": {"anyLoop"}, "C10": {"Cell.latitude"},
-		"C06": {"clipUBound", "splitUBound", "twin:s2.PaddedCell."}, "C08": {"DistanceTo", "EdgeQuery", "minDistance"}, "C19": {"Rect.Lo"},
-	} {
-		pp := Properties[prop]
-		pp.Rules = append(pp.Rules, "R-TWIN")
-		Properties[prop] = pp
-		only(prop, map[string][]string{"R-TWIN": keys})
+	// R-TWIN: each pair is reported under the properties named in the pair table
+	{
+		byProp := map[string][]string{}
+		for _, tp := range twinPairs {
+			for _, pr := range tp.props {
+				byProp[pr] = append(byProp[pr], twinConstruct(tp))
+			}
+		}
+		for prop, keys := range byProp {
+			pp, claimed := Properties[prop]
+			if !claimed {
+				continue
+			}
+			has := false
+			for _, r := range pp.Rules {
+				if r == "R-TWIN" {
+					has = true
+				}
+			}
+			if !has {
+				pp.Rules = append(pp.Rules, "R-TWIN")
+				Properties[prop] = pp
+			}
+			only(prop, map[string][]string{"R-TWIN": keys})
+		}
 	}
 	for prop, files := range anchorFiles {
 		pp := Properties[prop]
@@ -287,21 +304,22 @@ func init() {
 	// C04: the lazily built index must be complete before an indexed containment query reads it - the status protocol of
 	// R-LOCK applies, the re-entry obligation (incremental updates, known finding D3 under C13/C14) does not.
 	only("C04", map[string][]string{"R-LOCK": {"atomic-status", "balanced", "publish", "status-store"}})
-	only("C06", map[string][]string{"R-ALLLOOPS": {"CrossingEdgeQuery"}})
+	only("C06", map[string][]string{"R-ALLLOOPS": {"CrossingEdgeQuery"}, "R-CONSTREL": {"updateFaceEdges"}})
+	only("C15", map[string][]string{"R-ALLLOOPS": {"Polygon.decode"}})
 	only("C16", map[string][]string{"R-CONST": {"intersection", "projection", "robustNormal", "s2.dblError"}})
 	only("C17", map[string][]string{"R-CONST": {"interiorDist", "minUpdate", "ChordAngle).Max", "edge_distances"}, "R-UNITS": {"edge_distances", "UpdateM", "updateEdge", "s2.UpdateMaxDistance"}})
 	only("C20", map[string][]string{"R-CONST": {"Snapper", "Tessellat", "tessellat"}})
-	only("C12", map[string][]string{"R-CONST": {"Cell)", "PaddedCell", "interiorDist", "maxXYZtoUVError", "cellPadding", "stuv", "poleMinLat"}, "R-MIRROR": {"projection"}, "R-TWIN": {"twin:s2.CellID.", "Cell.latitude"}, "R-UNITS": {"Cell)"}})
-	only("C11", map[string][]string{"R-RANGE": {"CellID)", "CellUnion", "cellunion", "CellIndex", "cellIndex", "s2intersect"}, "R-TWIN": {"twin:s2.CellID."}})
+	only("C12", map[string][]string{"R-CONST": {"Cell)", "PaddedCell", "interiorDist", "maxXYZtoUVError", "cellPadding", "stuv", "poleMinLat"}, "R-MIRROR": {"projection"}, "R-UNITS": {"Cell)"}})
+	only("C11", map[string][]string{"R-RANGE": {"CellID)", "CellUnion", "cellunion", "CellIndex", "cellIndex", "s2intersect"}})
 	predicateConsts := []string{"maxDeterminantError", "detErrorMultiplier", "triage", "stableSign", "cosDistance", "sin2Distance", "s2.dblEpsilon", "s2.dblError", "r1.dblEpsilon", "s1.dblEpsilon"}
 	clipConsts := []string{"edgeClip", "faceClip", "intersectsRect", "cellPadding", "ShapeIndex)", "boundaryApproxIntersects", "ShrinkToFit"}
 	only("C01", map[string][]string{"R-CONST": {"Cell).ContainsPoint", "maxXYZtoUVError"}, "R-RANGE": {"CellID)", "CellUnion", "cellunion"}})
 	only("C02", map[string][]string{"R-CONST": predicateConsts, "R-CONSTREL": {"r3.MaxPrec", "stableSign", "maxDeterminantError"}})
-	only("C03", map[string][]string{"R-CONST": {"EdgeCrosser", "intersection", "projection"}, "R-CONSTREL": {"stableSign", "maxDeterminantError"}, "R-STAGES": {"RobustSign", "expensiveSign", "exactSign", "bound:", "symbolicallyPerturbedSign", "stage-callers"}})
+	only("C03", map[string][]string{"R-CONST": {"EdgeCrosser", "intersection", "projection"}, "R-CONSTREL": {"stableSign", "maxDeterminantError", "r3.MaxPrec"}, "R-STAGES": {"RobustSign", "expensiveSign", "exactSign", "bound:", "symbolicallyPerturbedSign", "stage-callers"}})
 	only("C05", map[string][]string{"R-CONST": clipConsts, "R-PADDING": {"boundaryApproxIntersects"}, "R-CYCLE": {"coverer", "CellUnionBound"}, "R-PARITY": {"iteratorContainsPoint"}})
 	only("C06", map[string][]string{"R-CONST": clipConsts})
 	only("C07", map[string][]string{"R-ROLES": {"hasCrossing", "(*s2.Loop).", "initOneLoop"}, "R-PARITY": {"loopCrosser"}})
-	only("C08", map[string][]string{"R-CONSTREL": {"findEdgesInternal"}, "R-CYCLE": {"EdgeQuery", "CellUnionBound"}})
+	only("C08", map[string][]string{"R-CONSTREL": {"findEdgesInternal", "setMaxError"}, "R-CYCLE": {"EdgeQuery", "CellUnionBound"}})
 	only("C09", map[string][]string{"R-CONST": {"siTitoPiQi"}, "R-SELFCMP": {"scan", "xyzToFaceSiTi", "stuv", "pointcompression", "s2."}})
 	only("C10", map[string][]string{"R-CONST": {"RectBounder", "ExpandForSubregions", "Cell).RectBound", "Cap).AddCap", "poleMinLat"}, "R-PADDING": {"Cap).RectBound"}, "R-CONSTREL": {"ExpandForSubregions", "RectBounder"}})
 	only("C18", map[string][]string{"R-CONST": {"turningAngleMaxError", "PointArea"}, "R-ROLES": {"CanonicalFirstVertex", "initOneLoop"}, "R-STAGES": {"stage-callers"}})
